@@ -255,6 +255,9 @@ class World:
         w.__name__ = fname
         w.__qualname__ = fname
         inspect.markcoroutinefunction(w)
+        if wspec.get("partial"):
+            import functools
+            return functools.partial(w)      # a coroutine function without a __name__ of its own
         return w
 
     async def orphan_body(self) -> Any:
